@@ -1090,7 +1090,12 @@ func (d *indexData) newMatchTree(q query.Q, opt matchTreeOpt) (matchTree, error)
 		checksum := queryMetaChecksum(s.Field, s.Value)
 		cacheKeyField := "Meta"
 		if cached, ok := d.docMatchTreeCache.Get(cacheKeyField, checksum); ok {
-			return cached, nil
+			// A docMatchTree carries the iteration cursor of the search that
+			// uses it, so searches must never share one: hand out a fresh copy
+			// of the cached (never iterated) template.
+			fresh := *cached
+			fresh.firstDone, fresh.docID = false, 0
+			return &fresh, nil
 		}
 
 		reposWant := make([]bool, len(d.repoMetaData))
@@ -1113,7 +1118,9 @@ func (d *indexData) newMatchTree(q query.Q, opt matchTreeOpt) (matchTree, error)
 				return reposWant[repoIdx]
 			},
 		}
-		d.docMatchTreeCache.Add(cacheKeyField, checksum, mt)
+		// Cache a copy: mt itself is mutated while this search iterates.
+		tmpl := *mt
+		d.docMatchTreeCache.Add(cacheKeyField, checksum, &tmpl)
 		return mt, nil
 
 	case *query.Substring:
